@@ -10,6 +10,7 @@ fn main() {
     let tier = match args[2].as_str() {
         "quick" => Tier::Quick,
         "thorough" => Tier::Thorough,
+        "micro" => Tier::Micro,
         other => {
             eprintln!("unknown tier {other}");
             std::process::exit(3);
